@@ -364,10 +364,114 @@ def dor_absorb(e):
     return _mk("and", items)
 
 
+# ---- what the engine's ConstFold rule does before DistributiveOrRewrite sees the expression ---------------
+
+def _cv(e):
+    """python value of a literal node: ('N',) | ('b', bool) | ('i', int) | ('s', bytes) | None"""
+    if e[0] != "const":
+        return None
+    c = e[1]
+    if c == "N":
+        return ("N",)
+    if isinstance(c, list) and len(c) >= 1:
+        if c[0] == "b":
+            return ("b", c[1] == "1")
+        if c[0] == "i":
+            return ("i", int(c[1]))
+        if c[0] == "s":
+            return ("s", bytes.fromhex(c[1]) if len(c) > 1 else b"")
+    return None
+
+
+def _mkb(v):
+    return ["const", "N"] if v is None else ["const", ["b", "1" if v else "0"]]
+
+
+def _b3(v):
+    """three-valued boolean of a literal value, or 'x' if it is not boolean/NULL"""
+    if v is None:
+        return "x"
+    if v[0] == "N":
+        return None
+    if v[0] == "b":
+        return v[1]
+    return "x"
+
+
+FOLD_NULL_CMP = [True]
+
+
+def cfold_node(e):
+    """one bottom-up step of constant folding on closed boolean sub-expressions (children already folded);
+    IN lists are desugared the way the binder does: a IN (x, y) = a = x OR a = y; a NOT IN = a <> x AND a <> y"""
+    h = e[0]
+    if h == "inlist" and e[3]:
+        neg, a, xs = e[1], e[2], e[3]
+        parts = [cfold_node(["cmp", "ne" if neg == "1" else "eq", a, x]) for x in xs]
+        out = parts[0]
+        for x in parts[1:]:
+            out = cfold_node(["and" if neg == "1" else "or", out, x])
+        return out
+    if h == "cmp":
+        a, b = _cv(e[2]), _cv(e[3])
+        if a is None or b is None:
+            return e
+        if a[0] == "N" or b[0] == "N":
+            # the binder wraps an untyped NULL operand in a cast, which ConstFold leaves alone in some
+            # positions: both readings are tried (flavour "~nullcmp" keeps the comparison unfolded)
+            return _mkb(None) if FOLD_NULL_CMP[0] else e
+        if a[0] != b[0]:
+            return e
+        x, y = a[1], b[1]
+        r = {"eq": x == y, "ne": x != y, "lt": x < y, "le": x <= y, "gt": x > y, "ge": x >= y}[e[1]]
+        return _mkb(r)
+    if h in ("and", "or"):
+        a, b = _b3(_cv(e[1])), _b3(_cv(e[2]))
+        if a == "x" or b == "x":
+            return e
+        if h == "and":
+            r = False if (a is False or b is False) else (None if (a is None or b is None) else True)
+        else:
+            r = True if (a is True or b is True) else (None if (a is None or b is None) else False)
+        return _mkb(r)
+    if h == "not":
+        a = _b3(_cv(e[1]))
+        return e if a == "x" else _mkb(None if a is None else (not a))
+    if h == "isnull":
+        a = _cv(e[2])
+        if a is None:
+            return e
+        isn = a[0] == "N"
+        return _mkb((not isn) if e[1] == "1" else isn)
+    return e
+
+
+_DOR_FIRED = [0]
+
+
+def dor_absorb_folded(e):
+    """ConstFold, conjunction flattening, then the absorption of DistributiveOrRewrite (rule order of
+    expr_rewrite/mod.rs): `('a' <> 'b' AND x) OR true` is `(true AND x) OR true` when the rule sees it"""
+    f = cfold_node(e)
+    g = dor_absorb(f)
+    if show(g) != show(f):
+        _DOR_FIRED[0] += 1
+    return g
+
+
+def dor_absorb_folded_nullcmp(e):
+    FOLD_NULL_CMP[0] = False
+    try:
+        return dor_absorb_folded(e)
+    finally:
+        FOLD_NULL_CMP[0] = True
+
+
 KNOWN_REWRITES = {
     "in-subquery-two-valued": in2v,
     "correlated-scalar-aggregate-null-on-empty": count_null,
-    "distributive-or-absorption": dor_absorb,
+    "distributive-or-absorption": dor_absorb_folded,
+    "distributive-or-absorption~nullcmp": dor_absorb_folded_nullcmp,
     "grouping-sets-empty-input-no-grand-total": ("block", gs_empty),
 }
 
@@ -383,8 +487,9 @@ def variants(sx):
     q = parse(sx)
     out = {}
     for cid, fe in KNOWN_REWRITES.items():
+        _DOR_FIRED[0] = 0
         r = show(apply_rewrite(q, fe))
-        if r != show(q):
+        if r != show(q) and (fe not in (dor_absorb_folded, dor_absorb_folded_nullcmp) or _DOR_FIRED[0]):
             out[cid] = r
     ids = list(out)
     # combinations (the deviations are independent): all subsets of size >= 2 of the applicable classes
